@@ -1,9 +1,18 @@
-"""C06 — invalidate-on-write effect obligations for every bundled widget class (pyvc/effects.py):
-path-sensitive, on the real ASTs re-read from /repo. One obligation per (class, public mutator)."""
+"""C06 — static (AST, path-sensitive) obligations of pyvc/effects.py on the real ASTs re-read from /repo:
+
+(a) invalidate-on-write: one obligation per (bundled widget class, public mutator);
+(b) dependency registration: one obligation per bundled container / decoration class — on every normal-exit path
+    of `render` the returned canvas depends on (explicit `set_depends`, or composition from the children's own
+    canvases) every child widget that the rendering consulted (`render/rows/pack/get_cursor_coords/get_pref_col`
+    called on it, directly or through `self.` helpers); elements of `self.contents` that a loop skips after they
+    were consulted need an explicit dependency on the whole collection.  See the comment block in pyvc/effects.py.
+    `weakref` / garbage-collection lifetime of the cached canvases is out of scope here.
+
+The deductive contracts of CanvasCache / the render wrappers / Canvas.finalize are in contracts/C06_store.py."""
 import urwid
 
 from pyvc.api import REGISTRY, Contract
-from pyvc.effects import analyse_class
+from pyvc.effects import analyse_class, analyse_render_deps
 
 CLASSES = [
     urwid.Text, urwid.Edit, urwid.IntEdit, urwid.Divider, urwid.SolidFill, urwid.Padding, urwid.Filler, urwid.Pile,
@@ -20,6 +29,25 @@ EXEMPT = {
 }
 
 
+# (b) containers / decorations whose render consults child widgets (every bundled class that has children)
+DEP_CLASSES = [
+    urwid.Padding, urwid.Filler, urwid.AttrMap, urwid.AttrWrap, urwid.Pile, urwid.Columns, urwid.Frame, urwid.Overlay,
+    urwid.BoxAdapter, urwid.Scrollable, urwid.ScrollBar, urwid.LineBox, urwid.GridFlow, urwid.ListBox,
+    urwid.WidgetPlaceholder, urwid.WidgetDisable, urwid.WidgetWrap, urwid.PopUpLauncher, urwid.PopUpTarget,
+    urwid.Button, urwid.CheckBox, urwid.RadioButton,
+]
+
+# Exemptions of (b) (each needed on the unchanged tree; the key is printed by a failing obligation):
+DEP_EXEMPT = {
+    "ListBox.render@ListBox.render#ret0:*": "the `middle is None` exit is taken only when the walker's focus widget is None, i.e. the body is empty, and then "
+                                       "_set_focus_complete cannot have consulted any widget (the path is infeasible: the enumeration does not correlate the two); "
+                                       "a body that becomes non-empty fires 'modified' -> ListBox._invalidate",
+    "PopUpTarget.render@PopUpTarget.render#ret0:original_widget": "_current_widget is the original widget itself or the Overlay that _update_overlay builds with the original widget "
+                                                             "as its bottom_w; the canvas returned is that widget's own canvas, whose dependency on the original widget is "
+                                                             "Overlay.render's obligation",
+}
+
+
 class _EffectsTask(Contract):
     """Not a function contract: a bundle of static (AST) obligations."""
 
@@ -27,23 +55,31 @@ class _EffectsTask(Contract):
     property = "C06"
     assumed = False
     static_only = True
+    group = "invalidate-on-write"
 
-    def __init__(self, cls):
+    def __init__(self, cls, kind="effects"):
         self.cls_ = cls
-        self.target = f"effects:{cls.__module__}.{cls.__name__}"
+        self.kind = kind
+        self.target = f"{kind}:{cls.__module__}.{cls.__name__}"
+        if kind == "deps":
+            self.group = "render-depends-on-consulted-children"
 
 
-def _make(cls):
-    t = _EffectsTask(cls)
+def _make(cls, kind="effects"):
+    t = _EffectsTask(cls, kind)
     REGISTRY[t.target] = t
     return t
 
 
 for _c in CLASSES:
     _make(_c)
+for _c in DEP_CLASSES:
+    _make(_c, "deps")
 
 
 def run_effects(target):
     t = REGISTRY[target]
+    if t.kind == "deps":
+        return analyse_render_deps(t.cls_, DEP_EXEMPT)
     results, rs = analyse_class(t.cls_, EXEMPT)
     return results, rs
